@@ -312,3 +312,45 @@ pub fn c08_source(ctx: &Ctx) -> Outcome {
     }
     run_all(tasks, threads())
 }
+
+/// C14, read side: the reader state space through the counting / tracing wrappers.
+pub fn c14_read(ctx: &Ctx) -> Outcome {
+    let nbits = if ctx.thorough { 512 } else { 256 };
+    let mut tasks: Vec<Task> = vec![];
+    for e in End::BOTH {
+        for kind in KINDS {
+            for backend in ["memzx", "memstrict"] {
+                for wrapper in ["count", "dbg"] {
+                    if !ctx.thorough && wrapper == "dbg" && !(kind == "buf32" || kind == "unbuf") {
+                        continue;
+                    }
+                    let diag = ctx.diag[kind];
+                    let seed = ctx.seed;
+                    let thorough = ctx.thorough;
+                    tasks.push(Box::new(move || {
+                        let mut out = Outcome::new();
+                        let (w, pk) = kind_word(kind);
+                        let mut alphabet = reduced_alphabet(w, pk);
+                        alphabet.extend(code_ops());
+                        for n in [0u32, 1, w as u32 - 1, w as u32 + 1, 70, 130] {
+                            for from in [false, true] {
+                                alphabet.push(ROp::Copy { n, wd: 64, prefill: 3, from });
+                            }
+                        }
+                        let imgs = images(e, nbits, seed, thorough);
+                        let sel: Vec<usize> = if thorough { vec![1, 0, 3] } else { vec![1] };
+                        for ii in sel {
+                            let img = &imgs[ii];
+                            let model = RdModel { bits: Bits::from_bytes(&img.bytes, e), e, zx: backend == "memzx", limit: nbits + 64, tables_ok: diag };
+                            let rd = make_reader(e, kind, backend, wrapper, &img.bytes);
+                            let run = RdRun { property: "C14", model: &model, image: &img.bytes, alphabet: &alphabet, max_states: 40_000, check_counter: true };
+                            out.merge(explore(&run, rd));
+                        }
+                        out
+                    }));
+                }
+            }
+        }
+    }
+    run_all(tasks, threads())
+}
